@@ -178,7 +178,7 @@ def random_cases(rep, a):
 
 
 def main():
-    a, rep, replay = parse(PROP)
+    a, rep, replay = parse(PROP, aged=True)
     rep.assumptions = ["damping time and period are evaluated in Python from the specification's rational eigenvalues",
                        "the feedback matrix of the measured clause is recomputed with numpy from data the harness preprocesses and PCA-reduces itself"]
     if replay is not None and replay["scenario"].get("kind") == "lifecycle_path":
